@@ -175,4 +175,143 @@ Proof.
     + left. intros s1 Hs1 Hp Hd. apply (D s1 (Hback s1 Hs1 Hd) Hp Hd).
     + right. unfold put_pre. rewrite Ec. split; [exact D1 |]. split; [exact D2 |]. split; [exact D3 |]. split; [apply SC; exact D4 | apply HO; exact D5].
 Qed.
+
+(* ================================================================== unblock's own steps *)
+Section Steps.
+Variables (R : ring) (prods : list pstate).
+Hypothesis HI : Inv lo (qcfg R prods).
+
+Let cp := r_cap R.
+Let hd := r_head R.
+Let ci := hd mod cp.
+
+Lemma st_cap : cap_ok cp. Proof. exact (i_cap _ _ HI). Qed.
+Lemma st_tiled : tiled cp hd (r_tail R) (r_slots R). Proof. exact (i_tiled _ _ HI). Qed.
+Lemma st_size : r_tail R - hd <= cp. Proof. exact (i_size _ _ HI). Qed.
+Lemma st_ci : 0 <= ci < cp /\ ci mod 8 = 0.
+Proof. split; [apply mod_range; exact st_cap | apply idx_mod8; [exact st_cap | exact (i_h8 _ _ HI)]]. Qed.
+
+Lemma slot_geo s : In s (r_slots R) -> hd <= s_pos s /\ s_pos s + s_span s <= r_tail R /\ geo cp s.
+Proof. intros Hs. pose proof (tiled_range _ _ _ _ st_tiled) as Rg. rewrite Forall_forall in Rg. exact (Rg s Hs). Qed.
+
+Lemma slot_idx s : In s (r_slots R) ->
+  ci <= idx R hd (s_pos s) /\ (idx R hd (s_pos s) - ci) mod 8 = 0 /\
+  ((idx R hd (s_pos s) + s_span s <= cp /\ s_pos s mod cp = idx R hd (s_pos s)) \/
+   (cp <= idx R hd (s_pos s) /\ s_pos s mod cp = idx R hd (s_pos s) - cp /\ idx R hd (s_pos s) - cp + s_span s <= ci)).
+Proof. intros Hs. destruct (slot_geo s Hs) as (A & B & (G0 & G8 & Gs & Gs8 & Gstr & _)).
+  pose proof (cap_ok_range _ st_cap) as Hcr. pose proof st_size as Hsz. fold cp in Gstr.
+  unfold idx. fold cp hd ci. split; [lia |]. split.
+  { replace (ci + (s_pos s - hd) - ci) with (s_pos s - hd) by lia. rewrite Zminus_mod, G8. pose proof (i_h8 _ _ HI) as H8. cbn [qcfg g_ring] in H8. fold hd in H8. rewrite H8. reflexivity. }
+  destruct (mod_window cp hd (s_pos s) ltac:(lia) ltac:(lia)) as [(E & L) | (E & L)]; fold ci in E, L.
+  - left. split; [lia | exact E].
+  - right. split; [lia |]. split; [exact E | lia]. Qed.
+
+Lemma word_start s : In s (r_slots R) -> idx R hd (s_pos s) < cp -> word_at (render R) (idx R hd (s_pos s)) = s_len s.
+Proof. intros Hs Hi. destruct (slot_idx s Hs) as (_ & _ & [(_ & E) | (L & _)]); [| lia]. rewrite <- E.
+  destruct (in_split _ _ Hs) as (pre & suf & Es).
+  exact (word_len lo (qcfg R prods) HI eq_refl pre s suf Es). Qed.
+
+Lemma word_blank_in s i : In s (r_slots R) -> blank s -> idx R hd (s_pos s) < cp ->
+  idx R hd (s_pos s) <= i < idx R hd (s_pos s) + s_span s -> word_at (render R) i = 0.
+Proof. intros Hs Hb Hi Hr. destruct (slot_idx s Hs) as (_ & _ & [(_ & E) | (L & _)]); [| lia].
+  destruct (in_split _ _ Hs) as (pre & suf & Es).
+  apply (word_blank lo (qcfg R prods) HI eq_refl pre s suf i Es Hb). cbn [qcfg g_ring]. fold cp. rewrite E. exact Hr. Qed.
+
+(* a non-zero word of the data area at or behind the consumer index lies in a slot that did not wrap *)
+Lemma word_nonzero i : ci + 8 <= i <= cp -> word_at (render R) i <> 0 ->
+  i < cp /\ exists s, In s (r_slots R) /\ idx R hd (s_pos s) <= i < idx R hd (s_pos s) + s_span s /\ idx R hd (s_pos s) + s_span s <= cp.
+Proof. intros Hi Hw. pose proof (cap_ok_range _ st_cap) as Hcr.
+  destruct (existsb (fun s => (s_pos s mod cp <=? i) && (i <? s_pos s mod cp + s_span s)) (r_slots R)) eqn:Ex.
+  - apply existsb_exists in Ex. destruct Ex as (s & Hs & Hr).
+    destruct (slot_idx s Hs) as (_ & _ & [(L & E) | (L & E & W)]).
+    + split; [lia |]. exists s. split; [exact Hs |]. split; [lia | exact L].
+    + exfalso. lia.
+  - exfalso. apply Hw. apply (word_outside lo (qcfg R prods) HI eq_refl); cbn [qcfg g_ring]; fold cp.
+    + destruct st_ci. lia.
+    + unfold TAIL_OFF, GenConsts.RB_TAIL_POSITION_OFFSET. lia.
+    + intros s Hs Hr. assert (X : existsb (fun s => (s_pos s mod cp <=? i) && (i <? s_pos s mod cp + s_span s)) (r_slots R) = true).
+      { apply existsb_exists. exists s. split; [exact Hs | lia]. }
+      congruence. Qed.
+
+Lemma head_slot : hd < r_tail R -> exists s1 rest, r_slots R = s1 :: rest /\ s_pos s1 = hd.
+Proof. intros Hlt. pose proof st_tiled as T. destruct (r_slots R) as [| s1 rest]; [inversion T; lia |].
+  inversion T; subst. exists s1, rest. auto. Qed.
+
+Lemma slot_len_cases s : In s (r_slots R) -> 0 < s_len s \/ (s_len s < 0 /\ s_span s = align (- s_len s) 8) \/ blank s.
+Proof. intros Hs. exact (slot_state lo (qcfg R prods) s HI Hs). Qed.
+
+(* one access of unblock: either it goes on (same ring, the next pc is justified), or it returns false (same ring),
+   or it is the store of the padding header *)
+Lemma ustep_ok u R' nxt e : unb_ok R u -> ustep R u = (R', nxt, e) ->
+  match nxt with
+  | inl u' => R' = R /\ unb_ok R u'
+  | inr false => R' = R
+  | inr true => exists h L, u = UPut h L /\ R' = set_slots R (put_hdr (r_slots R) h L PAD)
+  end.
+Proof.
+  pose proof st_cap as Hc. pose proof (cap_ok_range _ Hc) as Hcr. pose proof st_ci as (Hci & Hci8).
+  pose proof st_size as Hsz. pose proof (tiled_le _ _ _ _ st_tiled) as Hle.
+  assert (Hci8' : ci + 8 <= cp).
+  { pose proof (cap_ok_mod8 _ Hc) as C8. pose proof (Z.div_mod cp 8 ltac:(lia)). pose proof (Z.div_mod ci 8 ltac:(lia)). lia. }
+  destruct u as [| h | h tl | h limit i | h hit j | h L]; cbn [ustep unb_ok]; fold cp.
+  - intros _ E. injection E as <- <- <-. split; [reflexivity |]. cbn [unb_ok]. reflexivity.
+  - intros -> E. fold hd in E. destruct (r_tail R =? hd) eqn:Et; injection E as <- <- <-; [reflexivity |].
+    split; [reflexivity |]. cbn [unb_ok]. fold hd. split; [reflexivity | lia].
+  - intros (-> & Htl) E. fold hd in E, Htl. rewrite !mask_idx_mod in E by exact Hc. fold ci in E.
+    destruct (head_slot ltac:(lia)) as (s1 & rest & Es & Ep1).
+    assert (Hs1 : In s1 (r_slots R)) by (rewrite Es; left; reflexivity).
+    assert (Hi1 : idx R hd (s_pos s1) = ci) by (unfold idx; fold cp hd ci; lia).
+    pose proof (word_start s1 Hs1 ltac:(lia)) as W1. rewrite Hi1 in W1. rewrite W1 in E.
+    destruct (slot_len_cases s1 Hs1) as [Pos | [(Neg & Nsp) | Bl]].
+    + replace (s_len s1 <? 0) with false in E by lia. replace (s_len s1 =? 0) with false in E by lia. injection E as <- <- <-. reflexivity.
+    + replace (s_len s1 <? 0) with true in E by lia. injection E as <- <- <-. split; [reflexivity |]. cbn [unb_ok]. fold hd.
+      destruct (slot_geo s1 Hs1) as (_ & _ & (_ & _ & _ & _ & Gstr & _)). pose proof (align8_bounds (- s_len s1)). pose proof (mod_range cp (s_pos s1) Hc). fold cp in Gstr.
+      rewrite wrap32_id by (apply in_i32_small; unfold two31, two30 in *; lia).
+      split; [reflexivity |]. split; [lia |]. split; [lia |]. left.
+      intros s Hs Hp _. assert (s = s1) by (eapply tiled_pos_unique; [exact st_tiled | exact Hs | exact Hs1 | lia]). subst s. lia.
+    + destruct Bl as (B1 & B2 & B3). rewrite B1 in E. cbn [Z.ltb Z.eqb Z.compare] in E. injection E as <- <- <-. split; [reflexivity |].
+      cbn [unb_ok]. fold cp hd ci. rewrite AL_eq. pose proof (mod_range cp tl Hc).
+      split; [reflexivity |]. split; [lia |]. split; [lia |].
+      split; [replace (ci + 8 - ci) with 8 by lia; reflexivity |].
+      split; [destruct (tl mod cp >? ci); lia |]. split; [right; reflexivity |].
+      intros s Hs Hi _. destruct (slot_idx s Hs) as (A & A8 & _).
+      assert (idx R hd (s_pos s) = ci) by (pose proof (Z.div_mod (idx R hd (s_pos s) - ci) 8 ltac:(lia)); lia).
+      assert (s = s1) by (eapply tiled_pos_unique; [exact st_tiled | exact Hs | exact Hs1 | unfold idx in *; lia]). subst s.
+      repeat split; assumption.
+  - intros (-> & Hlt & Hi0 & Hi8 & Hlim & Hil & Hsc) E. fold hd in Hlt, Hi0, Hi8, Hil, Hsc, E. fold ci in Hi0, Hi8, Hil, E. rewrite AL_eq in E.
+    destruct (word_at (render R) i =? 0) eqn:W0.
+    + destruct (i + 8 >=? limit) eqn:Lm; injection E as <- <- <-; [reflexivity |]. split; [reflexivity |].
+      cbn [unb_ok]. fold cp hd ci. split; [reflexivity |]. split; [exact Hlt |]. split; [lia |].
+      split; [replace (i + 8 - ci) with ((i - ci) + 1 * 8) by lia; rewrite Z_mod_plus_full; exact Hi8 |].
+      split; [exact Hlim |]. split; [left; lia |].
+      (* the slots that start at index i have just been read as zero *)
+      intros s Hs Hidx Hd. destruct (Z_lt_dec (idx R hd (s_pos s)) i) as [Lt | Ge]; [exact (Hsc s Hs Lt Hd) |].
+      destruct (slot_idx s Hs) as (A & A8 & _).
+      assert (Ei : idx R hd (s_pos s) = i).
+      { pose proof (Z.div_mod (idx R hd (s_pos s) - ci) 8 ltac:(lia)). pose proof (Z.div_mod (i - ci) 8 ltac:(lia)). lia. }
+      pose proof (word_start s Hs ltac:(lia)) as Ws. rewrite Ei in Ws.
+      destruct (slot_len_cases s Hs) as [P | [(N & _) | B]]; [lia | lia | exact B].
+    + injection E as <- <- <-. split; [reflexivity |]. cbn [unb_ok]. fold cp hd ci.
+      destruct (word_nonzero i ltac:(lia) ltac:(lia)) as (Hicp & s & Hs & Hr & Hfit).
+      split; [reflexivity |]. split; [exact Hlt |]. split; [lia |]. split; [exact Hi8 |].
+      split; [replace (i - 8 - ci) with ((i - ci) + (-1) * 8) by lia; rewrite Z_mod_plus_full; exact Hi8 |].
+      split; [exact Hicp |]. split; [exact Hsc |].
+      exists s. split; [exact Hs |]. split; [exact Hr |].
+      destruct (Z.eq_dec (idx R hd (s_pos s)) i) as [Eq | Ne]; [left; exact Eq | right].
+      intros Hd. assert (B : blank s) by (apply (Hsc s Hs); [lia | exact Hd]).
+      pose proof (word_blank_in s i Hs B ltac:(lia) Hr). lia.
+  - intros (-> & Hlt & Hj & Hh8 & Hj8 & Hhc & Hsc & Hho) E. fold hd in Hlt, Hj, Hh8, Hj8, Hsc, Hho, E. fold ci in Hj, Hh8, Hj8, E. rewrite AL_eq in E.
+    rewrite mask_idx_mod in E by exact Hc. fold ci in E.
+    destruct (word_at (render R) j =? 0); [| injection E as <- <- <-; reflexivity].
+    destruct (j - 8 >=? ci) eqn:Jc; injection E as <- <- <-; (split; [reflexivity |]); cbn [unb_ok]; fold cp hd ci.
+    + split; [reflexivity |]. split; [exact Hlt |]. split; [lia |]. split; [exact Hh8 |].
+      split; [replace (j - 8 - ci) with ((j - ci) + (-1) * 8) by lia; rewrite Z_mod_plus_full; exact Hj8 |].
+      split; [exact Hhc |]. split; [exact Hsc | exact Hho].
+    + assert (j = ci) by (pose proof (Z.div_mod (j - ci) 8 ltac:(lia)); lia). subst j.
+      assert (8 <= hit - ci) by (pose proof (Z.div_mod (hit - ci) 8 ltac:(lia)); lia).
+      split; [reflexivity |]. split; [exact Hlt |]. split; [lia |]. right. unfold put_pre. fold cp hd ci.
+      replace (ci + (hit - ci)) with hit by lia. split; [exact Hh8 |]. split; [lia |]. split; [lia |]. split; [exact Hsc | exact Hho].
+  - intros _ E. injection E as <- <- <-. exists h, L. split; reflexivity.
+Qed.
+End Steps.
 End Agent.
